@@ -193,4 +193,23 @@ theorem C20_tie_optin_min_operands :
     optInMinSource = ":= k.avsKeeper.GetAVSMinimumSelfDelegation(ctx, avsAddr)" ∧
     avsSlicesRegenerated = true := ⟨rfl, rfl, rfl⟩
 
+/-- WHAT the phase-two signature check of SetTaskResultInfo is called on, what is parsed, recorded and stored
+(regenerated data flow, source order): the digest is keccak256 of the SUBMITTED bytes `info.TaskResponse` — the
+model's `digest` / `blsOk` inputs (`Submit.derived`, Proofs/AvsSig.lean) —, that digest is what is recorded as
+TaskResponseHash, the task id is parsed from the same bytes, the key is the operator's registered key, and the
+submitted `info` is what is stored. Verifying over a re-marshalled response, a digest of parsed fields or a
+caller-supplied hash, or recording / storing something else, changes the generated list. -/
+theorem C20_tie_phase2_verify_dataflow : avsPhase2Verify = [
+  ("def", "keyInfo, err := k.GetOperatorPubKey(ctx, info.OperatorAddress)"),
+  ("def", "pubKey, err := blst.PublicKeyFromBytes(keyInfo.PubKey)"),
+  ("def", "infoKey := assetstype.GetJoinedStoreKey(info.OperatorAddress, info.TaskContractAddress, strconv.FormatUint(info.TaskId, 10))"),
+  ("def", "bz := k.cdc.MustMarshal(info)"),
+  ("def", "taskResponseDigest := crypto.Keccak256Hash(info.TaskResponse)"),
+  ("set", "info.TaskResponseHash = taskResponseDigest.String()"),
+  ("parse", "types.UnmarshalTaskResponse(info.TaskResponse)"),
+  ("verify", "blst.VerifySignature(info.BlsSignature, taskResponseDigest, pubKey)"),
+  ("def", "infoKey := assetstype.GetJoinedStoreKey(info.OperatorAddress, info.TaskContractAddress, strconv.FormatUint(info.TaskId, 10))"),
+  ("def", "bz := k.cdc.MustMarshal(info)"),
+  ("store", "store.Set(infoKey, bz)")] := rfl
+
 end ExoVerif.Avs
